@@ -636,10 +636,16 @@ def _avoid_ambiguous(model, ops):
         if p and "lines" in p:
             call_targets |= {l.get("t") for l in p["lines"] if l.get("v") == "call" and l.get("t")}
     whole = {}
+    deleted = {}
     for oi, (key, off, length) in loc.items():
         sp = model.spans[key]
-        if ops[oi]["k"] in ("delblock", "del") and not ops[oi].get("proxy") and length == sp.size and sp.kind == "code":
-            whole[oi] = sp
+        if ops[oi]["k"] in ("delblock", "del") and not ops[oi].get("proxy") and sp.kind == "code":
+            deleted.setdefault(key, []).append((oi, length))
+    for key, lst in deleted.items():
+        sp = model.spans[key]
+        if sum(l for _, l in lst) >= sp.size:
+            # (several partial deletions may add up to the whole block)
+            whole[max(oi for oi, _ in lst)] = sp
     for oi, sp in whole.items():
         chain = [s2 for s2 in whole.values() if s2.sect == sp.sect and s2.order <= sp.order]
         own = {t.name for _, u in model.units() for t in u.toks if t.kind == "label" and any(t.att is s2 for s2 in chain)}
